@@ -215,6 +215,48 @@ func runR50(c *Ctx) {
 					}
 				}
 			}
+			// a test that demands more than the current byte (cursor+k >= len, k >= 1: lookahead) is not satisfied by
+			// one refill: a read may deliver a single byte, so the refill must be repeated until the test fails
+			if add, ok := other.(*ssa.BinOp); ok && add.Op == token.ADD && refills {
+				k, isK := constInt(add.Y)
+				if !isK {
+					k, isK = constInt(add.X)
+				}
+				if isK && k >= 1 {
+					readsData := func(b *ssa.BasicBlock) bool {
+						if b == iff.Block() {
+							return false
+						}
+						for _, i2 := range b.Instrs {
+							switch a := i2.(type) {
+							case *ssa.IndexAddr:
+								if fld, _ := fieldOf(a.X); fld != nil && fld == dataFld {
+									return true
+								}
+							case *ssa.Slice:
+								if fld, _ := fieldOf(a.X); fld != nil && fld == dataFld {
+									return true
+								}
+							}
+						}
+						return false
+					}
+					retested := false
+					for _, s2 := range blk.Succs {
+						for _, rb := range reachableAvoiding(s2, readsData) {
+							if rb == iff.Block() {
+								retested = true
+							}
+						}
+					}
+					lkey := fname(fn) + "|lookahead refill"
+					if retested {
+						c.ok(lkey, p.instrPos(iff), fmt.Sprintf("the test demands %d bytes beyond the cursor and is repeated after each refill", k+1))
+					} else {
+						c.bad(lkey, p.instrPos(iff), fmt.Sprintf("the test demands %d bytes beyond the cursor (lookahead) but refills only once before the buffer is read: a reader that delivers one byte per Read leaves the lookahead byte unread, and the scanner copies a byte that is not there yet (quoted fields with doubled quotes are corrupted under one-byte reads)", k+1))
+					}
+				}
+			}
 			if refills {
 				c.ok(key, p.instrPos(iff), "the `nothing buffered` edge refills from the reader first")
 			} else {
